@@ -949,14 +949,23 @@ func (r *proxyStreamReceiver) sendPendingWatermarkToShard(targetShardID history.
 			SourceShard: msg.SourceShard,
 			Resp:        clonedResp,
 		}
-		select {
-		case sendChan <- clonedMsg:
-			r.logger.Debug("Sent pending watermark to local shard",
-				tag.NewStringTag("targetShard", ClusterShardIDtoString(targetShardID)))
-		default:
-			r.logger.Warn("Failed to send pending watermark to local shard (channel full)",
-				tag.NewStringTag("targetShard", ClusterShardIDtoString(targetShardID)))
-		}
+		func() {
+			// The sender closes its channel before it de-registers it: a send in that window panics.
+			defer func() {
+				if panicErr := recover(); panicErr != nil {
+					r.logger.Warn("Failed to send pending watermark to local shard (channel closed)",
+						tag.NewStringTag("targetShard", ClusterShardIDtoString(targetShardID)))
+				}
+			}()
+			select {
+			case sendChan <- clonedMsg:
+				r.logger.Debug("Sent pending watermark to local shard",
+					tag.NewStringTag("targetShard", ClusterShardIDtoString(targetShardID)))
+			default:
+				r.logger.Warn("Failed to send pending watermark to local shard (channel full)",
+					tag.NewStringTag("targetShard", ClusterShardIDtoString(targetShardID)))
+			}
+		}()
 		return
 	}
 
